@@ -203,46 +203,6 @@ def run(rd, emit, log, enum_values, ti_default):
     body += 'Definition f_sb_cbguards : list (string * bool) := %s.\n\n' % blist(
         ['(%s, %s)' % (coqs(n), 'true' if g else 'false') for n, g in cbg])
 
-    # ---------------------------------------------------------------- body scan: does a native call a mutator on something it did not create
-    MUT = re.compile(r'(\b\w+)\s*(?:->|\.)\s*(Set|Add|Remove|Clear|Insert|Resize|Freeze|SetFieldByName|SetField|ModifyAttribute|'
-                     r'RestoreAttribute|Register|Unregister|Activate|Deactivate|ProcessCheckResult|CopyTo|NotifyField|SetAttribute)\s*\(')
-    EXT = re.compile(r'\b(ScriptGlobal::Set|Application::(?:Exit|RequestShutdown|RequestRestart)|Utility::(?:MkDir|MkDirP|Remove|RemoveDirRecursive|'
-                     r'SaveJsonFile|CopyFile|RenameFile|Sleep)|std::ofstream|std::fstream|fopen|unlink|rename|popen|fork|execvpe?|Process::|'
-                     r'ConfigObjectUtility::|ApplyRule::AddRule|ActivationContext|Loader::|AddObject|putenv|setenv)\b')
-    scan = []
-    for n in sorted(funcs):
-        lib, safe, cname, rel = funcs[n]
-        short = cname.split('::')[-1]
-        b = None
-        if short:
-            cands = [rel] + [r for r in sorted(texts) if r != rel and r.endswith('.cpp')] if '::' in cname else [rel]
-            for r in cands:
-                t = texts.get(r, '')
-                if '::' in cname:
-                    b = fn_body(t, r'\b' + re.escape(cname) + r'\s*\(')
-                else:
-                    b = fn_body(t, r'\bstatic\s+[\w:<>&\s\*]+?\b' + re.escape(short) + r'\s*\(')
-                if b is not None:
-                    break
-        if b is None:
-            scan.append((n, False, False))
-            continue
-        dirty = bool(EXT.search(b))
-        for m in MUT.finditer(b):
-            recv = m.group(1)
-            fresh = re.search(r'\b' + re.escape(recv) + r'\s*(?:=\s*new\b|\(\s*new\b|=\s*\w+\s*->\s*ShallowClone)', b) or \
-                re.search(r'\b(?:ArrayData|DictionaryData|std::\w+(?:<[^;]*>)?)\s+' + re.escape(recv) + r'\b', b)
-            if not fresh:
-                dirty = True
-        scan.append((n, True, dirty))
-    body += '(* (registered name, (C++ body located, body calls a mutator on an object it did not create / touches files, processes, registries)) *)\n'
-    body += 'Definition f_sb_body_scan : list (string * (bool * bool)) := %s.\n\n' % blist(
-        ['(%s, (%s, %s))' % (coqs(n), 'true' if l else 'false', 'true' if d else 'false') for n, l, d in scan])
-    nsafe = [n for n in funcs if funcs[n][1]]
-    located = [n for n, l, d in scan if l and funcs[n][1]]
-    log.append('C19: body scan: %d of %d side-effect-free functions located; dirty safe ones: %s' % (
-        len(located), len(nsafe), ', '.join(n for n, l, d in scan if l and d and funcs[n][1]) or 'none'))
-
     # ---------------------------------------------------------------- mutation-capability analysis (tools/c19_purity.py)
     # per registered function: all C++ definitions of the registered callee are located, and in none of them a use exists
     # that could modify pre-existing state (parameters, this/current frame, globals, registries, files)
@@ -298,6 +258,26 @@ def run(rd, emit, log, enum_values, ti_default):
     body += 'Definition f_sb_read_methods : list (string * (bool * bool)) := %s.\n\n' % blist(
         ['(%s, (%s, %s))' % (coqs(a), 'true' if b else 'false', 'true' if c else 'false') for a, b, c in rm])
     body += 'Definition f_sb_purity_selftest : bool := %s.\n\n' % ('true' if c19_purity.selftest(log) else 'false')
+    # reflective READ capability: which side-effect-free natives reach (through callees resolved by name in lib/base, depth 3) an
+    # accessor that fetches a field of a reflected object, and is it the one that tests no_user_view (GetFieldByName(.., true, ..))
+    base_texts = {r: t for r, t in texts.items() if r.startswith('lib/base/') and r.endswith('.cpp')}
+    bodies = c19_purity.all_function_bodies(base_texts)
+    refl = []
+    for n in sorted(funcs):
+        lib, safe, cname, rel = funcs[n]
+        if not safe or not cname:
+            continue
+        for r in [rel] + [x for x in all_cpp if x != rel]:
+            defs = c19_purity.find_defs(texts.get(r, ''), cname)
+            if defs:
+                break
+        for params, fb, _c in defs:
+            for where, acc, how in c19_purity.reflect_reach(cname, params, fb, bodies):
+                refl.append((n, where, how))
+    body += ('(* side-effect-free natives that reach an accessor fetching a field of a reflected object: (registered name, (function the\n'
+             '   accessor call is in, accessor[:sandboxed argument])) *)\n')
+    body += 'Definition f_sb_native_reflect : list (string * (string * string)) := %s.\n\n' % blist(
+        ['(%s, (%s, %s))' % (coqs(a), coqs(b), coqs(c)) for a, b, c in sorted(set(refl))])
 
     # ---------------------------------------------------------------- no_user_view fields
     ti_parent, ti_hidden = {}, {}
